@@ -222,7 +222,6 @@ func (c *AbstractTokenizer) ReadNextToken() *Token {
 
 		// Skip unknown characters if option set.
 		if token.Type() == Unknown && c.skipUnknown {
-			c.LastTokenType = token.Type()
 			continue
 		}
 
@@ -233,13 +232,11 @@ func (c *AbstractTokenizer) ReadNextToken() *Token {
 
 		// Skips comments if option set.
 		if token.Type() == Comment && c.skipComments {
-			c.LastTokenType = token.Type()
 			continue
 		}
 
 		// Skips whitespaces if option set.
 		if token.Type() == Whitespace && c.LastTokenType == Whitespace && c.skipWhitespaces {
-			c.LastTokenType = token.Type()
 			continue
 		}
 
